@@ -24,6 +24,8 @@ def run(ctx):
     ar.compat_checks_rule(ctx, 'R7.4')
     ar.parts_first_rule(ctx, 'R7.9')
     ar.mode_params_rule(ctx, 'R7.10')
+    from . import c02 as _c02b
+    _c02b.r29(ctx, 'R7.11')
     ar.index_normalisation_rule(ctx, 'R7.6')
     from . import c02
     c02.r21(ctx)
